@@ -16,6 +16,36 @@ pub fn run(ctx: &mut Ctx) {
     let part = ctx.part.clone();
     if part.is_empty() || part == "small" { small(ctx); }
     if part.is_empty() || part == "gen" { generated(ctx); }
+    if part.is_empty() || part == "huge" { huge(ctx); }
+}
+
+// The two compressed types over universes that no plain bitvector can hold: gaps of 2^48 … 2^63 between a few
+// values and short runs; every Sparse/RL conversion chain, compared with the directly built target.
+fn huge(ctx: &mut Ctx) {
+    let chains: Vec<Vec<usize>> = vec![vec![1, 2], vec![2, 1], vec![1, 2, 1], vec![2, 1, 2], vec![1, 2, 1, 2], vec![2, 1, 2, 1], vec![1, 1], vec![2, 2]];
+    let cases = ctx.size(40, 400);
+    for c in 0..cases {
+        if !ctx.begin_case() { continue; }
+        let mut rng = ctx.rng(0xC11_800 + c as u64);
+        let n: usize = match c % 6 { 0 => (1usize << 48) + rng.below(1 << 20), 1 => 1usize << (49 + rng.below(14)), 2 => (1usize << 63) + rng.below(1 << 62), 3 => usize::MAX - rng.below(3), 4 => (1usize << 52) - 1, _ => 1usize << 60 };
+        let groups = 1 + rng.below(if cfg!(miri) { 4 } else { 40 });
+        let mut pos: Vec<usize> = Vec::new();
+        for g in 0..groups {
+            let base = match (g + c) % 4 { 0 => rng.below(n), 1 => n - 1 - rng.below(1000), 2 => rng.below(1 << 20), _ => (rng.below(n) >> 48) << 48 };
+            let run = 1 + if rng.chance(1, 3) { rng.below(70) } else { 0 };
+            for k in 0..run { if let Some(p) = base.checked_add(k) { if p < n { pos.push(p); } } }
+        }
+        pos.sort_unstable(); pos.dedup();
+        let m = SetModel::new(n, pos.clone());
+        let directs: [Result<Any, String>; 3] = [Err("no plain bitvector over this universe".to_string()), direct(&m, 1), direct(&m, 2)];
+        for k in 1..3 { if let Err(e) = &directs[k] { ctx.violation("convert.construct", format!("direct construction of {} failed ({}) on {}", NAMES[k], e, m.describe())); } }
+        for ch in chains.iter() {
+            check_chain(ctx, &m, ch, false, &directs, 1 << 20);
+            check_chain(ctx, &m, ch, true, &directs, 1 << 20);
+        }
+        ctx.case(hash64(&[3, n as u64, hash64(&pos.iter().map(|x| *x as u64).collect::<Vec<u64>>())]), pos.len() >= 2);
+        ctx.sample(|| format!("huge: universe={} values={} x {} Sparse/RL chains (From and copy_bit_vec)", n, pos.len(), chains.len()));
+    }
 }
 
 #[derive(Clone, Debug, PartialEq, Eq)]
@@ -77,27 +107,31 @@ fn chains() -> Vec<Vec<usize>> {
 fn check_chain(ctx: &mut Ctx, m: &SetModel, chain: &[usize], via_copy: bool, directs: &[Result<Any, String>; 3], max_pos: usize) {
     let what = || format!("chain {} ({}) on {}", chain.iter().map(|k| NAMES[*k]).collect::<Vec<_>>().join(" -> "), if via_copy { "copy_bit_vec" } else { "From" }, m.describe());
     let start = match &directs[chain[0]] { Ok(x) => x.clone(), Err(_) => return };
-    let result = guard(|| {
-        let mut cur = start;
-        for &t in &chain[1..] { cur = cur.convert(t, via_copy); }
-        cur
-    });
-    ctx.checks += 1;
-    let result = match result {
-        Ok(r) => r,
-        Err(p) => { ctx.violation("convert!panic", format!("{} panicked: {}", what(), p)); return; },
-    };
-    let target = chain[chain.len() - 1];
-    if result.kind() != target { ctx.violation("convert.kind", what()); return; }
-    if result.len() != m.n {
-        ctx.violation("convert.len", format!("{}: length {} after conversion", what(), result.len()));
-        return;
-    }
+    // One conversion at a time; before a value is fed to the next conversion its length and (a bounded prefix of) its
+    // set positions are compared with the model, so that a conversion is never asked to walk a corrupted source
+    // (which may claim 2^60 set bits and would never finish: a hang is not a verdict).
     let want: Vec<usize> = m.ones.iter().copied().take(max_pos).collect();
-    match guard(|| result.positions(max_pos)) {
-        Ok(p) => { if p != want { ctx.violation("convert.positions", format!("{}: set positions {:?}", what(), &p[..std::cmp::min(p.len(), 30)])); return; } },
-        Err(e) => { ctx.violation("convert.positions!panic", format!("{}: {}", what(), e)); return; },
+    let mut cur = start;
+    for (step, &t) in chain.iter().enumerate() {
+        ctx.checks += 1;
+        if step > 0 {
+            cur = match guard(move || cur.convert(t, via_copy)) {
+                Ok(r) => r,
+                Err(p) => { ctx.violation("convert!panic", format!("{} panicked at conversion {}: {}", what(), step, p)); return; },
+            };
+        }
+        if cur.kind() != t { ctx.violation("convert.kind", what()); return; }
+        if cur.len() != m.n {
+            ctx.violation("convert.len", format!("{}: length {} after {} conversion(s)", what(), cur.len(), step));
+            return;
+        }
+        match guard(|| cur.positions(std::cmp::min(max_pos, want.len() + 1))) {
+            Ok(p) => { if p != want { ctx.violation("convert.positions", format!("{}: set positions after {} conversion(s): {:?}", what(), step, &p[..std::cmp::min(p.len(), 30)])); return; } },
+            Err(e) => { ctx.violation("convert.positions!panic", format!("{}: {}", what(), e)); return; },
+        }
     }
+    let result = cur;
+    let target = chain[chain.len() - 1];
     if let Ok(d) = &directs[target] {
         if result != *d { ctx.violation("convert.canonical.eq", format!("{}: result is not == to the directly built {}", what(), NAMES[target])); return; }
         if result.bytes() != d.bytes() { ctx.violation("convert.canonical.bytes", format!("{}: result serializes differently from the directly built {}", what(), NAMES[target])); }
